@@ -25,7 +25,7 @@ PROP = dict(
                  "amounts below 2^63 and Dec values below the 315-bit overflow limit (harness amounts are below 10^14)",
                  "static configuration (assets, rates params, pools, pairs) over a history; oracle prices may change between messages",
                  "denominations are in one-to-one correspondence with asset ids"],
-    rule="each case is one generated history (24 quick / 300 thorough, 45-160 messages each, plus two fixed witness histories) on a fresh "
+    rule="each case is one generated history (24 quick / 300 thorough, 45-160 messages each, plus three fixed histories: two defect witnesses and a twin-lend scenario) on a fresh "
          "app: 4 users, 2 pools x 3 assets, 18 pairs (same-pool, cross-pool via transit assets, one e-mode pair, optional isolated / "
          "stable-rate collateral, optional tight supply cap), time gaps of seconds to a year, price moves, V2 liquidations; amounts solved "
          "for equality of every comparison (availableToBorrow, AmountIn, pool balance, LTV, bridged LTV, repayment branches) and their "
